@@ -7,9 +7,7 @@
    well-formed and well-typed (ext_query).  The alias spellings (and/or/not, nil/none,
    capitalised literals, missing, implicit root, bare names in brackets) are a lexer/parser
    matter: they produce the same compiled query, see C13_aliases in props/C13Syntax.v. *)
-From JP Require Import Base Json Syntax Eval Rfc9535 Rfc9535Typing EvalProofs.
-
-Definition node_of (m : jmatch) : node := (m_parts m, m_val m).
+From JP Require Import Base Json Syntax Eval Rfc9535 Rfc9535Typing EvalCorr EvalProofs.
 
 (* For every well-typed query (simple or compound, standard or extended), every document and
    every filter context, evaluation succeeds and yields exactly the specified node sequence:
